@@ -11,3 +11,4 @@ def run(ck):
     image.r_validated_before_use(ck, P, 'C09-R4')
     status.r19_6_op_reduction(ck, P)        # C19-R6: the OVER->SRC rewrite of fill_boxes is an opacity simplification too
     factors.r10f_simd_fetchers(ck, P, 'C09-R5')
+    opacity.r6_outside_is_transparent(ck, P)
